@@ -2,10 +2,19 @@ from props_common import HARNESS_TB, EXTRACT_TB
 
 
 def c18_casesv(lines):
+    """Full verdict against the copy strategy the driver found this run to follow (it writes strategy.txt next to
+    cases.txt, i.e. into this process's run directory) - the same thing the driver's SPECFAIL/MISMATCH lines say."""
+    import os
+    import vcheck as V
+    strategy = "0"
+    try:
+        strategy = open(os.path.join(V.BUILD, "run-C18-%d" % os.getpid(), "strategy.txt")).read().strip() or "0"
+    except OSError:
+        pass
     rows = []
     for l in lines:
         f = l.split()
-        rows.append("verdict_ok (check_case %s)" % " ".join(f[1:11]))
+        rows.append("verdict_ok_for %s (check_case %s)" % (strategy, " ".join(f[1:11])))
     return ("From Coq Require Import List NArith.\nImport ListNotations.\nFrom Glb Require Import Check.C18.\n"
             "Open Scope N_scope.\nDefinition verdicts : list bool := [\n  " + ";\n  ".join(rows) +
             "].\nEval vm_compute in verdicts.\n")
@@ -37,7 +46,9 @@ CFG = dict(
           "trailing '/.', a file literally named '~' passed as '~' and './~', a directory literally named '~' passed as '~/name'; "
           "cwd inside the sandbox, HOME pointing to a sandbox directory); existing destinations in every relation to the source of "
           "size x modification time (os.Chtimes) x content, and two-step sequences onto one destination (CopyFile X->D by the code "
-          "under test, then Y->D with X's size and mtime); and real faults without hooks: "
+          "under test, then Y->D with X's size and mtime); related names of source and destination (source = <dest> + '.tmp' '~' '.bak' "
+          "'.part' '.new' '.old' '.swp' in the destination's directory, and the reverse), against missing / file / directory / "
+          "symlink destinations; and real faults without hooks: "
           "destination a symlink (in the scratch directory) to /dev/full (create follows it and succeeds, every write fails with ENOSPC), and - unless running as "
           "root - an unwritable destination directory and an unreadable source; real files, one case = one call on a freshly "
           "arranged directory; non-trivial = distinct case lines"),
@@ -46,7 +57,11 @@ CFG = dict(
                   "a system call fails (without effect; the data copy possibly after a prefix was stored); tied to the kernel on "
                   "the explored scenarios: the observed outcome class must equal the model's for every case",
                   "the file systems used by the harness: the one holding /verif/.build, the tmpfs /dev/shm, devtmpfs (/dev/full)"],
-    assumptions=["PARTIAL: outside the model, hence not proved: files changed by other processes during the call, crash consistency",
+    assumptions=["two copy strategies are modelled and proved: writing through the destination path (create + truncate, as in the "
+                 "code at HEAD) and temporary file + rename over the destination name (atomic replace); a run must agree with one "
+                 "of them on every case (the first case on which they differ decides; driver stat 'strategy'); an outcome that "
+                 "satisfies the property but matches neither model is reported without a failing input",
+                 "PARTIAL: outside the model, hence not proved: files changed by other processes during the call, crash consistency",
                  "faults: every call site (rename, open, src.Stat, os.Stat(dest), create, io.Copy incl. partial write, remove) may "
                  "fail, chosen by a universally quantified oracle - except a spurious failure of os.Stat(dest) while dest really is "
                  "the source: the code treats any Stat error as 'not there' and truncates; shown as copy_stat_fault_on_alias_refuted "
@@ -61,7 +76,7 @@ CFG = dict(
 )
 CFG["manifest"] = dict(
     text=("Proof (partial): Coq theorems C18_copy_faults, C18_move_faults, C18_move_remove_fails (and their fault-free corollaries "
-          "C18_copy, C18_move) hold for every file-system state, every aliasing relation between the two paths (same entry, symlink "
+          "C18_copy, C18_move), and C18_copy_replace_faults / C18_move_replace_faults for the temp-file-and-rename strategy, hold for every file-system state, every aliasing relation between the two paths (same entry, symlink "
           "chains, hard links, none), every device layout, every content and every fault oracle over the call sites (failure without "
           "effect, partial write then error), under the system-call model of Model/FileOps.v: nil => destination reads the original "
           "bytes (CopyFile: source unchanged; MoveFile: source entry gone or was an alias); error at any step => source present and "
